@@ -11,6 +11,7 @@ Classes come with their supertypes declared first (the renderers write a
 class once its supertypes are written: then the order is the description's).
 A reflected description is the list, in class order, of
   {'name','abstract','supers','features': [feature tuples IN ORDER],'operations': [(name, ((p, required)..))]}."""
+import keyword
 import sys
 import types as pytypes
 
@@ -62,14 +63,21 @@ def feature_source(fd):
             f"unique={fd['unique']}, containment={fd['containment']})")
 
 
-def def_source(od):
+def python_name(opname):
+    """the method name of an operation: hard keywords get a trailing underscore, everything else keeps its name"""
+    return opname + '_' if keyword.iskeyword(opname) else opname
+
+
+def def_source(od, stub='none'):
     ps = ', '.join(['self'] + [p['name'] if p['required'] else p['name'] + '=None' for p in od['params']])
-    return [f"    def {od['name']}({ps}):", '        return None']
+    body = '        return None' if stub == 'none' else "        raise NotImplementedError('not yet implemented')"
+    return [f"    def {python_name(od['name'])}({ps}):", body]
 
 
-def source(D, deco):
+def source(D, deco, stub='none'):
     """the module text: same layout as harness/kstatic.py (nameless features, reference types and opposites
-    assigned after the classes), @abstract outermost"""
+    assigned after the classes), @abstract outermost; stub='raise': method bodies raise NotImplementedError as
+    generated code does"""
     L = list(PRELUDE)
     for en in D.get('enums', []):
         L.append(f"{en['name']} = EEnum({en['name']!r}, literals={list(en['literals'])!r})")
@@ -88,7 +96,7 @@ def source(D, deco):
             L.append(f"class {c['name']}({bases}):")
         body = [f"    {fd['name']} = {feature_source(fd)}" for fd in c['features']]
         for od in c['operations']:
-            body += def_source(od)
+            body += def_source(od, stub)
         if not deco:
             body += ['    def __init__(self, **kwargs):', '        super().__init__()',
                      '        for k, v in kwargs.items():', '            setattr(self, k, v)']
@@ -531,3 +539,239 @@ def ask_module(model, m, intern):
     res = r.result()
     assert r.i == len(r.t), 'trailing tokens'
     return res
+
+
+# ------------------------------------------------------------------ behaviour of instances of both renderings
+# history step (ci = index of the class whose instance is used; one instance per class and rendering):
+#   ['mro', ci] ['get', ci, n] ['set', ci, n, v] ['eget', ci, n] ['eset', ci, n, v] ['isset', ci, n] ['unset', ci, n]
+#   ['call', ci, python method name, number of positional arguments] ['state', ci] ['xload', ci]
+# values are plain JSON: 'x', 3, True, 1.5, None, ['a'], [1, 2]
+CLASH_TYPES = [('EString', 1), ('EInt', 1), ('EBoolean', 1), ('EDouble', 1), ('EString', -1), ('EInt', -1)]
+CLASH_DEFAULTS = {'EString': [None, 'dflt'], 'EInt': [None, 7], 'EBoolean': [None, True], 'EDouble': [None, 2.5]}
+VALUES = ['x', 3, True, 1.5, None, ['a'], [1, 2], '']
+SOFT_KEYWORDS = ['match', 'case', 'type', '_']
+HARD_KEYWORDS = ['class', 'def', 'import', 'lambda', 'is', 'None']
+
+
+def _cls(classes, name, supers):
+    c = {'name': name, 'abstract': False, 'supers': list(supers), 'features': [], 'operations': []}
+    classes.append(c)
+    return c
+
+
+def _attr(name, t, upper, default=None):
+    return {'name': name, 'kind': 'attr', 'type': t, 'lower': 0, 'upper': upper, 'ordered': True, 'unique': upper == 1,
+            'containment': False, 'opposite': None, 'default': default if upper == 1 else None}
+
+
+def _op(rng, name, maxp=3):
+    ps = rng.sample(PNAMES, rng.randrange(0, maxp + 1))
+    nreq = rng.randrange(0, len(ps) + 1)
+    return {'name': name, 'params': [{'name': p, 'required': j < nreq} for j, p in enumerate(ps)]}
+
+
+def gen_clash_descr(rng):
+    """multiple inheritance over branches of DIFFERENT depth (optionally under one root) whose classes declare
+    features and operations of the same name with different types / parameters; the leaf lists the branch tips in
+    a random order, so a later super type can have the deeper hierarchy"""
+    classes = []
+    root = _cls(classes, 'Named', []) if rng.random() < 0.75 else None
+    tips = []
+    depths = rng.sample([1, 2, 3, 4], rng.choice([2, 2, 3]))
+    for b, depth in enumerate(depths):
+        prev = [root['name']] if root is not None and rng.random() < 0.85 else []
+        for d in range(depth):
+            prev = [_cls(classes, 'ABD'[b] + str(d), prev)['name']]
+        tips.append(prev[0])
+    rng.shuffle(tips)
+    supers_of = {c['name']: c['supers'] for c in classes}
+    while not mro_ok(supers_of, 'C', tips):
+        tips.pop()
+    leaf = _cls(classes, 'C', tips)
+    if rng.random() < 0.4:
+        _cls(classes, 'CC', ['C'])
+    declaring = [c for c in classes if c is not leaf]
+    for fn in rng.sample(['label', 'size', 'tag'], rng.choice([1, 2, 3])):
+        owners = [c for c in declaring if rng.random() < 0.5]
+        if len(owners) < 2:
+            owners = rng.sample(declaring, min(2, len(declaring)))
+        for c in owners:
+            t, up = rng.choice(CLASH_TYPES)
+            c['features'].append(_attr(fn, t, up, rng.choice(CLASH_DEFAULTS[t])))
+    for on in rng.sample(['describe', 'run'], rng.choice([1, 2])):
+        owners = [c for c in declaring if rng.random() < 0.5]
+        if len(owners) < 2:
+            owners = rng.sample(declaring, min(2, len(declaring)))
+        for c in owners:
+            c['operations'].append(_op(rng, on))
+    if rng.random() < 0.3:
+        leaf['operations'].append(_op(rng, 'describe'))
+    return {'enums': [], 'classes': classes}
+
+
+def gen_keyword_descr(rng):
+    """operations named after soft keywords (ordinary method names), hard keywords (method gets a trailing
+    underscore) and plain names, overridden with other parameters in a subclass"""
+    classes = []
+    rule = _cls(classes, 'Rule', [])
+    rule['features'].append(_attr('pattern', 'EString', 1))
+    special = _cls(classes, 'Special', ['Rule'])
+    other = _cls(classes, 'Other', []) if rng.random() < 0.5 else None
+    names = rng.sample(SOFT_KEYWORDS, rng.randrange(1, 5)) + rng.sample(HARD_KEYWORDS, rng.randrange(0, 3)) + ['check']
+    rng.shuffle(names)
+    for n in names:
+        rule['operations'].append(_op(rng, n, 2))
+        if rng.random() < 0.4:
+            special['operations'].append(_op(rng, n, 3))
+        if other is not None and rng.random() < 0.4:
+            other['operations'].append(_op(rng, n, 2))
+    if other is not None and rng.random() < 0.5:
+        _cls(classes, 'Both', ['Special', 'Other'])
+    return {'enums': [], 'classes': classes}
+
+
+def behave_history(D, rng, xload=True):
+    fnames = sorted({fd['name'] for c in D['classes'] for fd in c['features']})
+    ops = {}
+    for c in D['classes']:
+        for od in c['operations']:
+            ops.setdefault(python_name(od['name']), set()).update({len(od['params']), sum(p['required'] for p in od['params'])})
+    hist = []
+    for ci, c in enumerate(D['classes']):
+        hist.append(['mro', ci])
+        for n in fnames:
+            hist.append(['get', ci, n])
+            hist.append(['isset', ci, n])
+            for v in rng.sample(VALUES, 4):
+                hist.append([rng.choice(['set', 'set', 'eset']), ci, n, v])
+                hist.append([rng.choice(['get', 'eget']), ci, n])
+            hist.append(['isset', ci, n])
+            if rng.random() < 0.3:
+                hist += [['unset', ci, n], ['get', ci, n], ['isset', ci, n]]
+        for pn in sorted(ops):
+            for k in sorted({0, max(ops[pn]) + 1} | ops[pn]):
+                hist.append(['call', ci, pn, k])
+        hist.append(['state', ci])
+    if xload:
+        multi = [ci for ci, c in enumerate(D['classes']) if len(c['supers']) > 1] or [len(D['classes']) - 1]
+        hist.append(['xload', rng.choice(multi)])
+    return hist
+
+
+class Behaviour:
+    """one rendering of D ('dynamic' | 'static-meta' | 'static-decorator') driven through a history"""
+
+    def __init__(self, D, render):
+        common.use_repo()
+        from pyecore.notification import EObserver
+        self.D, self.render, self.mod = D, render, None
+        if render == 'dynamic':
+            self.eclasses = build_dynamic(D)
+            self.factories = list(self.eclasses)
+            self.pkg = self.eclasses[0].ePackage
+        else:
+            self.mod = execute(source(D, render == 'static-decorator', stub='raise'), 'bh')
+            self.factories = [self.mod.__dict__[c['name']] for c in D['classes']]
+            self.eclasses = [f.eClass for f in self.factories]
+            self.pkg = self.mod
+        self.objs, self.log, self.EObserver = {}, [], EObserver
+
+    def close(self):
+        if self.mod is not None:
+            forget(self.mod)
+
+    def obj(self, ci):
+        if ci not in self.objs:
+            o = self.factories[ci]()
+            self.EObserver(o, notifyChanged=lambda n: self.log.append(
+                (n.kind.name, n.feature.name, n.feature.eContainingClass.name, canon(n.old), canon(n.new))))
+            self.objs[ci] = o
+        return self.objs[ci]
+
+    def state(self, o):
+        out = []
+        for f in sorted(o.eClass.eAllStructuralFeatures(), key=lambda f: (f.name, f.eContainingClass.name)):
+            try:
+                out.append((f.name, f.eContainingClass.name, bool(o.eIsSet(f)), canon(o.eGet(f))))
+            except Exception as e:  # noqa
+                out.append((f.name, f.eContainingClass.name, 'raises', type(e).__name__))
+        return out
+
+    def step(self, st):
+        k, o = st[0], self.obj(st[1])
+        if k == 'mro':
+            names = {c['name'] for c in self.D['classes']}
+            return [x.__name__ for x in type(o).__mro__ if x.__name__ in names]
+        if k == 'get':
+            return canon(getattr(o, st[2]))
+        if k == 'eget':
+            return canon(o.eGet(st[2]))
+        if k == 'set':
+            return canon(setattr(o, st[2], st[3]))
+        if k == 'eset':
+            return canon(o.eSet(st[2], st[3]))
+        if k == 'isset':
+            return bool(o.eIsSet(st[2]))
+        if k == 'unset':
+            return canon(delattr(o, st[2]))
+        if k == 'call':
+            return canon(getattr(o, st[2])(*['p'] * st[3]))
+        if k == 'state':
+            return self.state(o)
+        if k == 'xload':
+            return self.xload(o)
+        raise ValueError(k)
+
+    def xload(self, o):
+        """save the instance; the document is loaded by a fresh static and by a fresh dynamic rendering"""
+        import os
+        import tempfile
+        from pyecore.resources import ResourceSet, URI
+        res = []
+        with tempfile.TemporaryDirectory() as td:
+            path = os.path.join(td, 'm.xmi')
+            r = ResourceSet().create_resource(URI(path))
+            r.append(o)
+            r.save()
+            for render in ('static-meta', 'dynamic'):
+                b = Behaviour(self.D, render)
+                try:
+                    rs = ResourceSet()
+                    rs.metamodel_registry['http://p'] = b.pkg
+                    root = rs.get_resource(URI(path)).contents[0]
+                    res.append(('loaded', root.eClass.name, b.state(root)))
+                except Exception as e:  # noqa
+                    res.append(('load raises', type(e).__name__))
+                finally:
+                    b.close()
+            r.remove(o)
+        return res
+
+    def run(self, history):
+        trace = []
+        for st in history:
+            try:
+                r = ('ok', self.step(st))
+            except Exception as e:  # noqa
+                r = ('raises', type(e).__name__)
+            trace.append(json_able({'result': r, 'notifications': self.log[:]}))
+            del self.log[:]
+        return trace
+
+
+def canon(v):
+    common.use_repo()
+    from pyecore.valuecontainer import ECollection
+    if isinstance(v, ECollection) or isinstance(v, (list, tuple, set)):
+        return ['coll'] + [canon(x) for x in v]
+    if v is None or isinstance(v, (bool, int, float, str)):
+        return repr(v)
+    return type(v).__name__
+
+
+def json_able(x):
+    if isinstance(x, (list, tuple)):
+        return [json_able(y) for y in x]
+    if isinstance(x, dict):
+        return {k: json_able(v) for k, v in x.items()}
+    return x
